@@ -159,6 +159,7 @@ pub fn check(id: &str, tier: Tier) -> i32 {
     } else {
       vec![
         (2, 3, with_none.clone(), vec![(true, 256, 8)], vec![3, 1, 7, 11]),
+        (2, 3, lists.clone(), vec![(true, 256, 8)], vec![19, 27]),
         (2, 2, lists.clone(), vec![(true, 256, 8)], vec![0]),
         (2, 3, lists.clone(), vec![(false, 225, 8)], vec![3]),
         (2, 3, lists.clone(), vec![(true, 256, 0)], vec![3]),
